@@ -499,8 +499,53 @@ func c13Scenarios(e *Env) []schemaScenario {
 	return base
 }
 
+// c13DryRunFlags: --dry-run next to every other flag of `schema apply` that changes how the plan is approved,
+// reported or executed: the command may refuse the combination, but it never changes the database.
+func c13DryRunFlags(e *Env, viol func(kind, sig, what, check string, rep any), mu *sync.Mutex) {
+	mixes := [][]string{
+		{"--auto-approve"},
+		{"--format", "{{ sql . }}"},
+		{"--auto-approve", "--format", "{{ sql . }}"},
+		{"--auto-approve", "--format", "{{ json . }}"},
+		{"--log", "{{ sql . }}", "--auto-approve"},
+		{"--tx-mode", "none"},
+		{"--tx-mode", "none", "--auto-approve"},
+		{"--exclude", "nothing_*", "--auto-approve"},
+	}
+	for mi, mix := range mixes {
+		for _, order := range []bool{true, false} {
+			dir := filepath.Join(e.Work, fmt.Sprintf("c13-dryflags-%d-%v", mi, order))
+			os.RemoveAll(dir)
+			os.MkdirAll(dir, 0o755)
+			dbp := filepath.Join(dir, "db.sqlite")
+			if err := execSQL(dbp, "CREATE TABLE t (a integer NOT NULL)", "INSERT INTO t VALUES (1)", "CREATE TABLE gone (x integer)", "INSERT INTO gone VALUES (2)"); err != nil {
+				os.RemoveAll(dir)
+				continue
+			}
+			os.WriteFile(filepath.Join(dir, "desired.sql"), []byte("CREATE TABLE t (a integer NOT NULL, c text NULL);\nCREATE TABLE u (id integer NOT NULL);\nCREATE INDEX t_a ON t (a);\n"), 0o644)
+			before := dumpDB(dbp)
+			args := []string{"schema", "apply", "--url", "sqlite://db.sqlite", "--to", "file://desired.sql", "--dev-url", "sqlite://dev?mode=memory"}
+			if order {
+				args = append(append(args, "--dry-run"), mix...)
+			} else {
+				args = append(append(args, mix...), "--dry-run")
+			}
+			o := runAtlas(e, dir, nil, args...)
+			after := dumpDB(dbp)
+			mu.Lock()
+			e.Res.Count(fmt.Sprintf("schema-dry-flags:%d:%v", mi, order), true, "schema-apply", "dry:true", "dry-run-flag-mix")
+			mu.Unlock()
+			if before.canon(true) != after.canon(true) {
+				viol("failing-input", "schema-apply-dry-run-changes-database", fmt.Sprintf("`atlas %s` (exit %d) changed the database:\n%s\nvs\n%s", strings.Join(args, " "), o.Code, trunc(before.canon(true), 400), trunc(after.canon(true), 400)), "Props.C13.dry_run_identity", map[string]any{"args": args})
+			}
+			os.RemoveAll(dir)
+		}
+	}
+}
+
 // (C) schema apply
 func c13Schema(e *Env, pool *hx.Pool, viol func(kind, sig, what, check string, rep any), mu *sync.Mutex) {
+	c13DryRunFlags(e, viol, mu)
 	sc := c13Scenarios(e)
 	type run struct {
 		s   schemaScenario
